@@ -10,9 +10,9 @@ CONSTANTS
   MaxRestarts = 1
   Detector = FALSE
   RetryLimit = 5
-  AtomicRemove = TRUE
+  AtomicRemove = FALSE
   RemoveByHash = FALSE
-  LockedRemove = FALSE
+  LockedRemove = TRUE
   Contents = {0,1}
   FinLag = 0
   NoIdle = TRUE
